@@ -74,10 +74,10 @@ class Element(Component, Matter):
         elif m := re.match("([a-zA-Z]{1,2})(\{([0-9]+)([+-]{1}[0-9]*)\}|\{([0-9]+)\}|\{([+-]{1}[0-9]*)\}|)", expr):
             # Extract information about isos
             element, variant, iso1, ion1, iso2, ion3 = m.groups()
-            if element=='D':
-                element, variant, iso1, ion1, iso2, ion3 = 'H', True, 2, ion1, 2, None
+            if element=='D':    # a suffix with a charge only (D{-}, D{+1}) is the charge of this isotope
+                element, variant, iso1, ion1, iso2, ion3 = 'H', True, 2, ion1 or ion3, 2, None
             elif element=='T':
-                element, variant, iso1, ion1, iso2, ion3 = 'H', True, 3, ion1, 3, None
+                element, variant, iso1, ion1, iso2, ion3 = 'H', True, 3, ion1 or ion3, 3, None
             self.element = element
             if iso1 and ion1:
                 if ion1=="-": ion1="-1"
